@@ -12,9 +12,11 @@ def sh(cmd, timeout=2400):
 
 def main():
     names = sorted(d for d in os.listdir(S) if os.path.isdir(os.path.join(S, d)))
-    if len(sys.argv) > 1:
+    if "--table-only" in sys.argv:
+        names = []
+    elif len(sys.argv) > 1:
         names = [n for n in names if any(n.startswith(p) for p in sys.argv[1:])]
-    assert sh("git -C /repo diff --quiet")[0] == 0, "repo dirty"
+    assert not names or sh("git -C /repo diff --quiet")[0] == 0, "repo dirty"
     for n in names:
         d = os.path.join(S, n); mp = os.path.join(d, "meta.json")
         meta = json.load(open(mp)) if os.path.exists(mp) else {}
@@ -45,6 +47,8 @@ def main():
             if not isinstance(r, dict): continue
             if r.get("exit") == 1:
                 cells.append("%s: **caught** (%s)" % (cid, ", ".join(sorted(set(s.split("|")[1] for s in r.get("signatures", []) if "|" in s))[:3])))
+            elif r.get("exit") == 2 and r.get("signatures"):
+                cells.append("%s: **caught** (%s; exit 2: one further alarm of the batch did not reproduce from its record)" % (cid, ", ".join(sorted(set(s.split("|")[1] for s in r.get("signatures", []) if "|" in s))[:3])))
             else:
                 cells.append("%s: missed%s" % (cid, " (exit %s)" % r.get("exit") if r.get("exit") not in (0, None) else ""))
         change = (m.get("change") or m.get("summary") or m.get("what") or "")
